@@ -29,6 +29,9 @@
 #include "stir/TimeFrameDefinitions.h"
 #include "stir/PatientPosition.h"
 #include "stir/Radionuclide.h"
+#include "stir/MultipleProjData.h"
+#include "stir/DynamicProjData.h"
+#include "stir/ProjDataInfoSubsetByView.h"
 #include <cstring>
 #include <csignal>
 #include <sys/resource.h>
@@ -106,8 +109,21 @@ struct Store {
   shared_ptr<DataSymmetriesForViewSegmentNumbers> symm;
   long n = 0;
   long next = 0;     // value counter
-  long nextval() { ++next; return (next - 1) % type_max(c.type) + 1; }
+  long nextval() { ++next; const long v = (next - 1) % type_max(c.type) + 1; if (v > bound) bound = v; return v; }
+  // --- round 2
+  long bound = 0;                       // upper bound of |value| in the store (input-domain control for the arithmetic calls)
+  shared_ptr<ProjData> pd2;             // a second writer object on the same file
+  PDFS* pdfs2 = nullptr;
+  shared_ptr<std::iostream> stream2;
+  std::vector<long long> last_mul_y;    // operand of an immediately preceding *= (so that /= is exact)
+  long last_mul_f = 0;
+  bool dead = false;                    // the store could not be re-attached: stop this execution
 };
+static const long ARITH_LIM = 2000000;   // |values| stay below this (exact in float, sums below 2^31)
+static bool wide_type(const Store& s) { return type_max(s.c.type) >= 1000000; }
+static bool signed_type(const Store& s) {
+  const NumericType::Type t = s.c.type;
+  return t == NumericType::INT || t == NumericType::LONG || t == NumericType::FLOAT || t == NumericType::DOUBLE; }
 
 static std::vector<unsigned char> sentinel(int off) { std::vector<unsigned char> v(off); for (int i = 0; i < off; ++i) v[i] = (unsigned char)(0xA5 ^ (i * 37)); return v; }
 
@@ -271,8 +287,10 @@ static bool no_oor_seg = false;   // C02_NO_OORSEG: sanitizer pass leaves out ge
 
 // ------------------------------------------------------------------ operations
 enum Kind { SETBIN, SETSINO, SETVIEW, SETSEGV, SETSEGS, SETREL, FILL, FILLFROM, FILLITER, ITERSET, ITERCOPY,
-            GETBIN, GETSINO, GETVIEW, GETSEGV, GETSEGS, GETREL, COPYTO, REOPEN, WRITETOFILE, CLONEMEM, NKINDS };
-struct Op { int kind; int seg, ax, view, tang, tof; long pos; };
+            GETBIN, GETSINO, GETVIEW, GETSEGV, GETSEGS, GETREL, COPYTO, REOPEN, WRITETOFILE, CLONEMEM,
+            ARITH, STATS, SUBSET, FILLWIDE, FILLNARROW, ARITHBAD, STDSEQ, REATTACH, SECOND, NKINDS };
+enum Arith { XAPYB, XAPYBV, SAPYB, SAPYBV, ADDPD, SUBPD, MULPD, DIVPD, ADDF, SUBF, MULF, DIVF, NARITH };
+struct Op { int kind; int seg, ax, view, tang, tof; long pos; int sub = 0; int w = 0; long a = 1, b = 1; };
 
 template <class A2> static void put2(Store& s, A2& a, std::vector<long long>& vals) {
   for (int i = a.get_min_index(); i <= a.get_max_index(); ++i)
@@ -328,27 +346,55 @@ static void reopen(vh::Json& j, Store& s, const std::string& header_name, bool p
 
 static void perform(vh::Trace& tr, Store& s, const Op& op) {
   static const char* names[] = { "SetBin", "SetSino", "SetView", "SetSegV", "SetSegS", "SetRel", "Fill", "FillFrom", "FillIter", "IterSet", "IterCopy",
-                                 "GetBin", "GetSino", "GetView", "GetSegV", "GetSegS", "GetRel", "CopyTo", "Reopen", "WriteToFile", "CloneMem" };
-  vh::Json j(names[op.kind]);
-  cur_call = names[op.kind];
+                                 "GetBin", "GetSino", "GetView", "GetSegV", "GetSegS", "GetRel", "CopyTo", "Reopen", "WriteToFile", "CloneMem",
+                                 "Arith", "Stats", "Subset", "FillWide", "FillNarrow", "ArithBad", "StdSeq", "Reattach", "Second" };
+  static const char* arith_names[] = { "Xapyb", "XapybV", "Sapyb", "SapybV", "AddPD", "SubPD", "MulPD", "DivPD", "AddF", "SubF", "MulF", "DivF" };
+  const char* ename = op.kind == ARITH ? arith_names[op.sub] : names[op.kind];
+  vh::Json j(ename);
+  cur_call = ename;
   struct Leave { ~Leave() { cur_call = nullptr; } } leave;
   std::vector<long long> vals;
   std::vector<int> shape;
   std::vector<std::vector<int>> pairs;
   bool err = false;
   std::string msg;
-  ProjData& pd = *s.pd;
+  const bool second = op.w && s.pd2;
+  ProjData& pd = second ? *s.pd2 : *s.pd;
+  PDFS* const pdfs = second ? s.pdfs2 : s.pdfs;
+  j.num("w", second ? 2 : 1);
+  vh::Rng lr((uint64_t)op.pos * 1000003ULL + (uint64_t)op.sub * 7919ULL + (uint64_t)s.next);   // operands of this call (inputs)
+  // an in-memory operand with small positive integers, recorded in the standard order
+  auto operand = [&](const shared_ptr<ProjDataInfo>& pdi, int lo, int hi, std::vector<long long>& rec) {
+    shared_ptr<ProjDataInMemory> m(new ProjDataInMemory(s.exam, pdi));
+    std::vector<float> v(pdi->size_all());
+    for (auto& f : v) { const int x = lr.range(lo, hi); f = (float)x; rec.push_back(x); }
+    m->fill_from(v.begin());
+    return m; };
+  // geometry with one more / one less pair of oblique segments than the store's
+  auto other_pdi = [&](int dmax) {
+    auto sc = vh::make_scanner(s.c.N, s.c.R, s.c.tofMash > 0 ? s.c.tofMash : 0);
+    shared_ptr<ProjDataInfo> p(ProjDataInfo::construct_proj_data_info(sc, 1, s.c.maxDelta + dmax, s.c.N / 2 / s.c.viewMash, s.c.ntang, false,
+                                                                      s.c.tofMash > 0 ? (s.c.tofOne ? s.c.tofMash : 1) : 0));
+    return p; };
+  auto geo_of = [&](vh::Json& jj, const ProjDataInfo& p) {
+    std::vector<std::vector<int>> ax;
+    for (int g = p.get_min_segment_num(); g <= p.get_max_segment_num(); ++g) ax.push_back({ p.get_min_axial_pos_num(g), p.get_max_axial_pos_num(g) });
+    jj.num("srcMinSeg", p.get_min_segment_num()).num("srcMaxSeg", p.get_max_segment_num()).arr2("srcAx", ax); };
+  const bool keep_mul = op.kind == ARITH && (op.sub == DIVPD || op.sub == DIVF);
+  std::vector<long long> mul_y; long mul_f = 0;
+  if (keep_mul) { mul_y = s.last_mul_y; mul_f = s.last_mul_f; }
+  s.last_mul_y.clear(); s.last_mul_f = 0;
   switch (op.kind) {
   case SETBIN: {
     long v = s.nextval(); vals.push_back(v);
     Bin b(op.seg, op.view, op.ax, op.tang, op.tof, (float)v);
-    err = vh::threw([&] { if (s.pdm) s.pdm->set_bin_value(b); else s.pdfs->set_bin_value(b); }, &msg);
+    err = vh::threw([&] { if (s.pdm) s.pdm->set_bin_value(b); else pdfs->set_bin_value(b); }, &msg);
     j.num("seg", op.seg).num("ax", op.ax).num("view", op.view).num("tang", op.tang).num("tof", op.tof);
     break; }
   case GETBIN: {
     Bin b(op.seg, op.view, op.ax, op.tang, op.tof);
     float f = -5.F;
-    err = vh::threw([&] { f = s.pdm ? s.pdm->get_bin_value(b) : s.pdfs->get_bin_value(b); }, &msg);
+    err = vh::threw([&] { f = s.pdm ? s.pdm->get_bin_value(b) : pdfs->get_bin_value(b); }, &msg);
     if (!err) vals.push_back(as_int(f));
     j.num("seg", op.seg).num("ax", op.ax).num("view", op.view).num("tang", op.tang).num("tof", op.tof);
     break; }
@@ -417,16 +463,19 @@ static void perform(vh::Trace& tr, Store& s, const Op& op) {
   case FILL: {
     long v = s.nextval(); vals.push_back(v);
     err = vh::threw([&] { pd.fill((float)v); }, &msg);
+    if (!err) s.bound = v;
     break; }
   case FILLFROM: {
     std::vector<float> src(s.n);
     for (long i = 0; i < s.n; ++i) { long v = s.nextval(); src[i] = (float)v; vals.push_back(v); }
     err = vh::threw([&] { ProjDataInMemory m(s.exam, s.pdi); m.fill_from(src.begin()); pd.fill(m); }, &msg);
+    if (!err) s.bound = *std::max_element(vals.begin(), vals.end());
     break; }
   case FILLITER: {
     std::vector<float> src(s.n);
     for (long i = 0; i < s.n; ++i) { long v = s.nextval(); src[i] = (float)v; vals.push_back(v); }
     err = vh::threw([&] { pd.fill_from(src.begin()); }, &msg);
+    if (!err) s.bound = *std::max_element(vals.begin(), vals.end());
     break; }
   case ITERSET: {
     long v = s.nextval(); vals.push_back(v);
@@ -437,6 +486,7 @@ static void perform(vh::Trace& tr, Store& s, const Op& op) {
     std::vector<float> src(s.n);
     for (long i = 0; i < s.n; ++i) { long v = s.nextval(); src[i] = (float)v; vals.push_back(v); }
     std::copy(src.begin(), src.end(), s.pdm->begin_all());
+    s.bound = *std::max_element(vals.begin(), vals.end());
     break; }
   case COPYTO: {
     std::vector<float> out(s.n, -5.F);
@@ -457,6 +507,130 @@ static void perform(vh::Trace& tr, Store& s, const Op& op) {
     observe(j, s);
     tr.emit(j);
     return; }
+  case ARITH: {
+    std::vector<long long> x, y, av, bv;
+    shared_ptr<ProjDataInMemory> X, Y, A, B;
+    const float a = (float)op.a, b = (float)op.b;
+    long nb = s.bound;
+    switch (op.sub) {
+    case XAPYB: X = operand(s.pdi, 1, 20, x); Y = operand(s.pdi, 1, 20, y); err = vh::threw([&] { pd.xapyb(*X, a, *Y, b); }, &msg); nb = 20 * (op.a + op.b); break;
+    case XAPYBV: X = operand(s.pdi, 1, 20, x); Y = operand(s.pdi, 1, 20, y); A = operand(s.pdi, 1, 3, av); B = operand(s.pdi, 1, 3, bv);
+      err = vh::threw([&] { pd.xapyb(*X, *A, *Y, *B); }, &msg); nb = 120; break;
+    case SAPYB: Y = operand(s.pdi, 1, 20, y); err = vh::threw([&] { pd.sapyb(a, *Y, b); }, &msg); nb = s.bound * op.a + 20 * op.b; break;
+    case SAPYBV: Y = operand(s.pdi, 1, 20, y); A = operand(s.pdi, 1, 2, av); B = operand(s.pdi, 1, 3, bv);
+      err = vh::threw([&] { pd.sapyb(*A, *Y, *B); }, &msg); nb = s.bound * 2 + 60; break;
+    case ADDPD: Y = operand(s.pdi, 1, 20, y); err = vh::threw([&] { pd += *Y; }, &msg); nb = s.bound + 20; break;
+    case SUBPD: Y = operand(s.pdi, 1, 20, y); err = vh::threw([&] { pd -= *Y; }, &msg); nb = s.bound + 20; break;
+    case MULPD: Y = operand(s.pdi, 1, 3, y); err = vh::threw([&] { pd *= *Y; }, &msg); nb = s.bound * 3; if (!err) s.last_mul_y = y; break;
+    case DIVPD: { y = mul_y; std::vector<float> v(y.begin(), y.end()); Y.reset(new ProjDataInMemory(s.exam, s.pdi)); Y->fill_from(v.begin());
+      err = vh::threw([&] { pd /= *Y; }, &msg); break; }
+    case ADDF: err = vh::threw([&] { pd += a; }, &msg); nb = s.bound + op.a; break;
+    case SUBF: err = vh::threw([&] { pd -= a; }, &msg); nb = s.bound + op.a; break;
+    case MULF: err = vh::threw([&] { pd *= a; }, &msg); nb = s.bound * op.a; if (!err) s.last_mul_f = op.a; break;
+    case DIVF: { const float d = (float)mul_f; err = vh::threw([&] { pd /= d; }, &msg); j.num("a", mul_f); break; }
+    }
+    if (!err) s.bound = nb;
+    if (op.sub != DIVF) j.num("a", op.a);
+    j.num("b", op.b).arr("x", x).arr("y", y).arr("av", av).arr("bv", bv);
+    break; }
+  case ARITHBAD: {
+    // an operand whose geometry has fewer segments: "ProjDataInfo don't match" must be reported, nothing may change
+    std::vector<long long> y;
+    shared_ptr<ProjDataInfo> np = other_pdi(-1);
+    shared_ptr<ProjDataInMemory> Y = operand(np, 1, 20, y), X = operand(s.pdi, 1, 20, vals);
+    vals.clear();
+    if (op.sub == 0) err = vh::threw([&] { pd.xapyb(*X, 2.F, *Y, 1.F); }, &msg);
+    else err = vh::threw([&] { pd.sapyb(2.F, *Y, 1.F); }, &msg);
+    geo_of(j, *np);
+    j.num("sub", op.sub);
+    break; }
+  case STATS: {
+    double sum = 0, mx = 0, mn = 0, nsq = 0, nrm = 0;
+    err = vh::threw([&] { sum = pd.sum(); mx = pd.find_max(); mn = pd.find_min(); nsq = pd.norm_squared(); nrm = pd.norm(); }, &msg);
+    auto enc = [](double d) { return (!(d == d) || d > 2e9 || d < -2e9) ? (long long)-777777 : (long long)std::llround(d); };
+    j.num("sum", enc(sum)).num("max", enc(mx)).num("min", enc(mn)).num("nsq", enc(nsq)).num("norm", enc(nrm))
+        .boolean("nsqInt", nsq == std::floor(nsq));
+    break; }
+  case SUBSET: {
+    // get_subset(views): a ProjDataInMemory with the chosen views; then write_to_file of that subset (announced as unsupported)
+    std::vector<int> views;
+    for (int v = s.pdi->get_min_view_num(); v <= s.pdi->get_max_view_num(); ++v) if (lr.coin()) views.push_back(v);
+    if (views.empty()) views.push_back(s.pdi->get_max_view_num());
+    std::vector<int> orig; std::vector<long long> wvals; bool werr = true; int nv = -1;
+    err = vh::threw([&] {
+      unique_ptr<ProjDataInMemory> sub = pd.get_subset(views);
+      const ProjDataInMemory& cs = *sub;
+      for (auto it = cs.begin_all(); it != cs.end_all(); ++it) vals.push_back(as_int(*it));
+      nv = sub->get_num_views(); orig = sub->get_original_view_nums();
+      const std::string stem = (s.data_name.empty() ? std::string("/var/tmp/C02-mem") + std::to_string(cfg_id) + ".s" : s.data_name);
+      const std::string ws = stem.substr(0, stem.size() - 2) + "_sub";
+      werr = vh::threw([&] { if (sub->write_to_file(ws + ".hs") != Succeeded::yes) throw std::string("no");
+                             auto r = ProjData::read_from_file(ws + ".hs"); std::vector<float> o(r->size_all()); r->copy_to(o.begin());
+                             for (float f : o) wvals.push_back(as_int(f)); });
+      std::remove((ws + ".hs").c_str()); std::remove((ws + ".s").c_str()); }, &msg);
+    if (err) vals.clear();
+    j.arr("views", views).arr("orig", orig).num("nv", nv).boolean("werr", werr).arr("wvals", werr ? std::vector<long long>() : wvals);
+    break; }
+  case FILLWIDE: {
+    // fill(ProjData) from a source with MORE segments ("the source can have more")
+    shared_ptr<ProjDataInfo> wp = other_pdi(+1);
+    std::vector<float> src(wp->size_all());
+    for (auto& f : src) { long v = s.nextval(); f = (float)v; vals.push_back(v); }
+    err = vh::threw([&] { ProjDataInMemory m(s.exam, wp); m.fill_from(src.begin()); pd.fill(m); }, &msg);
+    if (!err) s.bound = *std::max_element(vals.begin(), vals.end());
+    geo_of(j, *wp);
+    break; }
+  case FILLNARROW: {
+    // fill(ProjData) from a source with FEWER segments: "will call error() if ... the 'source' proj_data is not compatible"
+    shared_ptr<ProjDataInfo> np = other_pdi(-1);
+    std::vector<float> src(np->size_all());
+    for (auto& f : src) { long v = s.nextval(); f = (float)v; vals.push_back(v); }
+    err = vh::threw([&] { ProjDataInMemory m(s.exam, np); m.fill_from(src.begin()); pd.fill(m); }, &msg);
+    geo_of(j, *np);
+    break; }
+  case STDSEQ: {
+    j.arr("seq", ProjData::standard_segment_sequence(*s.pdi));
+    break; }
+  case REATTACH: {
+    // the writer object(s) are destroyed and the SAME file is re-opened for update from its header; the history continues
+    s.pd2.reset(); s.pdfs2 = nullptr; s.stream2.reset();
+    s.pd.reset(); s.pdfs = nullptr; s.stream.reset();
+    shared_ptr<ProjData> r;
+    err = vh::threw([&] { r = ProjData::read_from_file(s.header_name, std::ios::in | std::ios::out); if (!r) throw std::string("null");
+                          if (!dynamic_cast<PDFS*>(r.get())) throw std::string("not a stream"); }, &msg);
+    if (err) { s.dead = true; j.raw("lay", "{}").boolean("pdiEq", false); }
+    else {
+      s.pd = r; s.pdfs = dynamic_cast<PDFS*>(r.get());
+      const PDFS::StorageOrder o = s.pdfs->get_storage_order();
+      vh::Json l;
+      l.boolean("isStream", true).boolean("byView", o == PDFS::Segment_View_AxialPos_TangPos || o == PDFS::Timing_Segment_View_AxialPos_TangPos)
+          .boolean("bySino", o == PDFS::Segment_AxialPos_View_TangPos || o == PDFS::Timing_Segment_AxialPos_View_TangPos)
+          .arr("seq", s.pdfs->get_segment_sequence_in_stream()).num("off", (long long)s.pdfs->get_offset_in_stream())
+          .str("type", type_name(s.pdfs->get_data_type_in_stream().id)).boolean("big", s.pdfs->get_byte_order_in_stream() == ByteOrder::big_endian)
+          .num("scale", vh::fx(s.pdfs->get_scale_factor(), 10));
+      const bool same = *r->get_proj_data_info_sptr() == *s.pdi;
+      j.raw("lay", l.done()).boolean("pdiEq", same);
+      if (!same) s.dead = true;     // the re-opened object describes another geometry: the history cannot be continued
+    }
+    break; }
+  case SECOND: {
+    // a second writer object on the same file (its own stream); from now on calls go through either object
+    err = vh::threw([&] {
+      if (s.c.backing == "stream") {
+        s.stream2.reset(new std::fstream(s.data_name.c_str(), std::ios::in | std::ios::out | std::ios::binary));
+        const bool tof = s.pdi->get_num_tof_poss() > 1;
+        s.pdfs2 = new PDFS(s.exam, s.pdi, s.stream2, s.c.off, s.c.seq, order_enum(s.c, tof), NumericType(s.c.type),
+                           s.c.big ? ByteOrder::big_endian : ByteOrder::little_endian);
+        s.pd2.reset(s.pdfs2);
+      } else {
+        shared_ptr<ProjData> r = ProjData::read_from_file(s.header_name, std::ios::in | std::ios::out);
+        if (!r || !dynamic_cast<PDFS*>(r.get())) throw std::string("null");
+        s.pd2 = r; s.pdfs2 = dynamic_cast<PDFS*>(r.get());
+      } }, &msg);
+    bool same = !err && *s.pd2->get_proj_data_info_sptr() == *s.pdi;
+    j.boolean("pdiEq", same);
+    if (err || !same) { s.pd2.reset(); s.pdfs2 = nullptr; s.stream2.reset(); }
+    break; }
   case CLONEMEM: {
     // ProjDataInMemory(const ProjData&): a copy in memory, read through its const iterators
     err = vh::threw([&] { const ProjDataInMemory m(pd); for (auto it = m.begin_all(); it != m.end_all(); ++it) vals.push_back(as_int(*it)); }, &msg);
@@ -483,24 +657,46 @@ static Op random_op(vh::Rng& rng, Store& s, bool writes_only) {
     int k;
     const int r = rng.range(0, 99);
     if (writes_only) {
-      static const int w[] = { SETBIN, SETBIN, SETBIN, SETSINO, SETSINO, SETVIEW, SETVIEW, SETSEGV, SETSEGS, SETREL, FILL, FILLFROM, FILLITER, REOPEN, REOPEN };
-      k = w[rng.range(0, 14)];
+      static const int w[] = { SETBIN, SETBIN, SETBIN, SETSINO, SETSINO, SETVIEW, SETVIEW, SETSEGV, SETSEGS, SETREL, FILL, FILLFROM, FILLITER, REOPEN, REOPEN,
+                               FILLWIDE, FILLNARROW, REATTACH, SECOND, STDSEQ };
+      k = w[rng.range(0, 19)];
     } else if (r < 50) {
       static const int w[] = { SETBIN, SETBIN, SETBIN, SETBIN, SETSINO, SETSINO, SETSINO, SETVIEW, SETVIEW, SETVIEW, SETSEGV, SETSEGV, SETSEGS, SETSEGS,
-                               SETREL, SETREL, FILL, FILLFROM, FILLITER, ITERSET, ITERSET, ITERCOPY };
-      k = w[rng.range(0, 21)];
+                               SETREL, SETREL, FILL, FILLFROM, FILLITER, ITERSET, ITERSET, ITERCOPY,
+                               ARITH, ARITH, ARITH, ARITH, ARITH, ARITH, FILLWIDE, FILLNARROW, ARITHBAD, REATTACH, SECOND };
+      k = w[rng.range(0, 32)];
     } else {
       static const int g[] = { GETBIN, GETBIN, GETBIN, GETBIN, GETSINO, GETSINO, GETSINO, GETVIEW, GETVIEW, GETVIEW, GETSEGV, GETSEGV, GETSEGS, GETSEGS,
-                               GETREL, GETREL, COPYTO, COPYTO, REOPEN, REOPEN, WRITETOFILE, CLONEMEM };
-      k = g[rng.range(0, 21)];
+                               GETREL, GETREL, COPYTO, COPYTO, REOPEN, REOPEN, WRITETOFILE, CLONEMEM, STATS, STATS, SUBSET, SUBSET, STDSEQ };
+      k = g[rng.range(0, 26)];
     }
     if ((k == ITERSET || k == ITERCOPY) && !s.pdm) continue;
     if (k == REOPEN && s.header_name.empty()) continue;
     if (k == REOPEN && (s.c.backing == "stream" || s.c.backing == "memory")) continue;
     if ((k == SETREL || k == GETREL) && !s.symm) continue;
+    const bool files_hdr = s.c.backing == "interfile" || s.c.backing == "hdrstream";
+    if (k == REATTACH && (!files_hdr || rng.range(0, 3) != 0)) continue;
+    if (k == SECOND && (s.pdm || s.pd2 || rng.range(0, 2) != 0)) continue;
+    if (k == FILLWIDE && (s.c.maxDelta >= s.c.R - 1 || s.c.segReduce)) continue;
+    if ((k == FILLNARROW || k == ARITHBAD) && (s.c.maxDelta < 1 || s.c.segReduce)) continue;
+    if ((k == ARITHBAD || k == STATS || k == SUBSET || k == ARITH) && s.c.fresh) continue;
+    if (k == ARITH) {
+      if (!(s.pdm || wide_type(s))) continue;
+      const int sub = rng.range(0, NARITH - 1);
+      op.sub = sub; op.a = rng.range(1, 3); op.b = rng.range(1, 3);
+      if ((sub == SUBPD || sub == SUBF) && !(s.pdm || signed_type(s))) continue;
+      if (sub == DIVPD && s.last_mul_y.empty()) op.sub = MULPD;
+      if (sub == DIVF && s.last_mul_f == 0) op.sub = MULF;
+      long nb = s.bound;
+      switch (op.sub) { case SAPYB: nb = s.bound * op.a + 60; break; case SAPYBV: nb = s.bound * 2 + 60; break; case MULPD: nb = s.bound * 3; break;
+        case MULF: nb = s.bound * op.a; break; default: nb = s.bound + 120; }
+      if (nb > ARITH_LIM) continue;
+    }
+    if (k == ARITHBAD) op.sub = rng.range(0, 1);
     op.kind = k;
     break;
   }
+  op.w = s.pd2 ? (int)rng.coin() : 0;
   bool oor = false;
   const bool a = true;
   // the segment decides the axial range; an out-of-range segment is only used where the request can be formed without
@@ -553,6 +749,7 @@ static Cfg random_cfg(vh::Rng& rng, long i) {
 }
 
 static void cleanup(Store& s) {
+  s.pd2.reset(); s.stream2.reset();
   s.pd.reset(); s.stream.reset();
   if (!s.data_name.empty()) std::remove(s.data_name.c_str());
   if (!s.header_name.empty()) std::remove(s.header_name.c_str());
@@ -567,8 +764,14 @@ static int run_rand(const std::string& out, long nconf, long nops, const std::st
     if (make_store(tr, s, c, dir)) {
       long ops = nops;
       if (type_max(c.type) < 1000) ops = std::min(ops, 60L);
-      for (long k = 0; k < ops; ++k) perform(tr, s, random_op(rng, s, c.fresh));
-      if (c.backing == "interfile" || c.backing == "hdrstream") { Op o{}; o.kind = REOPEN; perform(tr, s, o); }
+      for (long k = 0; k < ops && !s.dead; ++k) {
+        Op o = random_op(rng, s, c.fresh);
+        perform(tr, s, o);
+        // a multiplication is often followed at once by the division that undoes it (exact quotients)
+        if (o.kind == ARITH && (o.sub == MULPD || o.sub == MULF) && rng.coin() && (!s.last_mul_y.empty() || s.last_mul_f)) {
+          Op d = o; d.sub = o.sub == MULPD ? DIVPD : DIVF; perform(tr, s, d); }
+      }
+      if (!s.dead && (c.backing == "interfile" || c.backing == "hdrstream")) { Op o{}; o.kind = REOPEN; perform(tr, s, o); }
     }
     cleanup(s);
     tr.flush();
@@ -648,6 +851,119 @@ static int run_exh(const std::string& out, long maxconf, const std::string& dir)
   return 0;
 }
 
+// ------------------------------------------------------------------ one more index: MultipleProjData / DynamicProjData
+// (beyond C02's statement: a sequence of stores; index k maps to store k; fill_from / copy_to run over the stores in order)
+static int run_multi(const std::string& out, long nconf, long nops, const std::string& dir) {
+  vh::Trace tr(out);
+  vh::Rng rng(vh::seed_from_env() + 77);
+  for (long i = 0; i < nconf; ++i) {
+    Cfg c = random_cfg(rng, 4 * i + 1);
+    ++cfg_id;
+    auto sc = vh::make_scanner(c.N, c.R, c.tofMash > 0 ? c.tofMash : 0);
+    shared_ptr<ProjDataInfo> pdi(ProjDataInfo::construct_proj_data_info(sc, 1, std::min(c.maxDelta, 1), c.N / 2 / c.viewMash, c.ntang, false, c.tofMash > 0 ? 1 : 0));
+    const long n = (long)pdi->size_all();
+    const int K = rng.range(2, 3);
+    const bool all_files = rng.coin();
+    std::vector<std::string> kinds, headers;
+    std::vector<std::vector<long long>> frames;
+    std::vector<int> durs;
+    std::vector<std::pair<double, double>> fr_all;
+    shared_ptr<ExamInfo> exam_all(new ExamInfo(ImagingModality::PT));
+    MultipleProjData multi(exam_all, K);
+    bool cerr = vh::threw([&] {
+      for (int k = 1; k <= K; ++k) {
+        const int dur = 1 << rng.range(0, 2);
+        const double start = 10.0 * k;
+        durs.push_back(dur);
+        fr_all.push_back(std::make_pair(start, start + dur));
+        frames.push_back({ vh::fx(start, 4), vh::fx((double)dur, 4) });
+        shared_ptr<ExamInfo> e(new ExamInfo(ImagingModality::PT));
+        e->set_time_frame_definitions(TimeFrameDefinitions(std::vector<std::pair<double, double>>(1, fr_all.back())));
+        e->set_radionuclide(Radionuclide("^18^Fluorine", 511.F, 0.9686F, 6584.04F, ImagingModality::PT));
+        const bool file = all_files || (k % 2 == 1);
+        shared_ptr<ProjData> sub;
+        const std::string h = dir + "/m" + std::to_string(cfg_id) + "_f" + std::to_string(k) + ".hs";
+        if (file) { sub.reset(new ProjDataInterfile(e, pdi, h, std::ios::in | std::ios::out | std::ios::trunc)); headers.push_back(h); kinds.push_back("interfile"); }
+        else { sub.reset(new ProjDataInMemory(e, pdi)); headers.push_back(""); kinds.push_back("memory"); }
+        multi.set_proj_data_sptr(sub, k);
+      } });
+    {
+      vh::Json j("Config");
+      std::vector<std::string> q; std::string ks = "[";
+      for (size_t k = 0; k < kinds.size(); ++k) ks += std::string(k ? "," : "") + "\"" + kinds[k] + "\"";
+      ks += "]";
+      j.num("id", cfg_id).str("backing", "multi").num("K", K).num("n", n).raw("kinds", ks).arr2("frames", frames).arr("durs", durs).boolean("err", cerr)
+          .boolean("herr", false);
+      tr.emit(j);
+    }
+    if (!cerr) {
+      long next = 0, bound = 0;
+      auto observe_all = [&](vh::Json& j) {
+        std::vector<float> o(K * n, -5.F); std::vector<long long> all;
+        bool e = vh::threw([&] { multi.copy_to(o.begin()); });
+        if (!e) for (float f : o) all.push_back(as_int(f));
+        j.boolean("oerr", e).arr("all", all); };
+      auto fresh_vals = [&](long m, std::vector<float>& v, std::vector<long long>& rec) {
+        v.resize(m); for (long t = 0; t < m; ++t) { ++next; v[t] = (float)next; rec.push_back(next); } if (next > bound) bound = next; };
+      bool calib4 = false;
+      for (long op = 0; op < nops; ++op) {
+        int kind = op == 0 ? 0 : rng.range(0, 8);
+        const bool was_calib4 = calib4; calib4 = false;
+        std::vector<long long> vals; std::vector<float> v; bool err = false; std::string msg;
+        const int idx = rng.range(1, K);
+        if (kind == 7 && !was_calib4) kind = 6;
+        if (kind == 8) { bool ok = true; for (auto& kd : kinds) ok = ok && kd == "interfile"; if (!ok) kind = 1; }
+        if (kind == 6 && bound * 4 > ARITH_LIM) kind = 0;
+        switch (kind) {
+        case 0: { vh::Json j("MFill"); cur_call = "MFill"; fresh_vals(K * n, v, vals); err = vh::threw([&] { multi.fill_from(v.begin()); }, &msg); bound = next;
+          j.boolean("err", err).arr("vals", vals); observe_all(j); tr.emit(j); break; }
+        case 1: { vh::Json j("MCopy"); cur_call = "MCopy"; std::vector<float> o(K * n, -5.F); long size = -1, num = -1;
+          err = vh::threw([&] { multi.copy_to(o.begin()); size = (long)multi.size_all(); num = multi.get_num_proj_data(); }, &msg);
+          if (!err) for (float f : o) vals.push_back(as_int(f));
+          j.boolean("err", err).arr("vals", vals).num("size", size).num("num", num); observe_all(j); tr.emit(j); break; }
+        case 2: { vh::Json j("MGet"); cur_call = "MGet"; std::vector<float> o(n, -5.F);
+          err = vh::threw([&] { multi.get_proj_data(idx).copy_to(o.begin()); }, &msg);
+          if (!err) for (float f : o) vals.push_back(as_int(f));
+          j.num("idx", idx).boolean("err", err).arr("vals", vals); observe_all(j); tr.emit(j); break; }
+        case 3: { vh::Json j("MSetSub"); cur_call = "MSetSub"; fresh_vals(n, v, vals);
+          err = vh::threw([&] { multi.get_proj_data_sptr(idx)->fill_from(v.begin()); }, &msg);
+          j.num("idx", idx).boolean("err", err).arr("vals", vals); observe_all(j); tr.emit(j); break; }
+        case 4: case 5: { vh::Json j("MReplace"); cur_call = "MReplace"; fresh_vals(n, v, vals);
+          err = vh::threw([&] { shared_ptr<ProjDataInMemory> m(new ProjDataInMemory(exam_all, pdi)); m->fill_from(v.begin()); multi.set_proj_data_sptr(m, idx); }, &msg);
+          if (!err) kinds[idx - 1] = "memory";
+          j.num("idx", idx).boolean("err", err).arr("vals", vals); observe_all(j); tr.emit(j); break; }
+        case 6: { vh::Json j("MCalib"); cur_call = "MCalib"; const int f = rng.coin() ? 4 : rng.range(2, 3);
+          err = vh::threw([&] { DynamicProjData dyn(multi); dyn.set_time_frame_definitions(TimeFrameDefinitions(fr_all));
+                                j.num("nframes", dyn.get_num_frames()); dyn.calibrate_frames((float)f); }, &msg);
+          if (!err) { bound *= f; calib4 = f == 4; }
+          j.num("f", f).boolean("err", err); observe_all(j); tr.emit(j); break; }
+        case 7: { vh::Json j("MDivDur"); cur_call = "MDivDur";
+          err = vh::threw([&] { DynamicProjData dyn(multi); dyn.set_time_frame_definitions(TimeFrameDefinitions(fr_all)); dyn.divide_with_duration(); }, &msg);
+          j.boolean("err", err); observe_all(j); tr.emit(j); break; }
+        case 8: { vh::Json j("MRead"); cur_call = "MRead";
+          const std::string mh = dir + "/m" + std::to_string(cfg_id) + "_multi.txt";
+          { std::ofstream f(mh.c_str()); f << "Multi :=\n  total number of data sets := " << K << "\n";
+            for (int k = 1; k <= K; ++k) f << "  data set[" << k << "] := " << headers[k - 1] << "\n"; f << "End :=\n"; }
+          long num = -1; std::vector<std::vector<long long>> fr;
+          err = vh::threw([&] { unique_ptr<MultipleProjData> r = MultipleProjData::read_from_file(mh);
+                                num = r->get_num_proj_data(); std::vector<float> o(r->size_all(), -5.F); r->copy_to(o.begin());
+                                for (float f : o) vals.push_back(as_int(f));
+                                const TimeFrameDefinitions& t = r->get_exam_info().time_frame_definitions;
+                                for (unsigned q = 1; q <= t.get_num_time_frames(); ++q) fr.push_back({ vh::fx(t.get_start_time(q), 4), vh::fx(t.get_duration(q), 4) }); }, &msg);
+          std::remove(mh.c_str());
+          if (err) vals.clear();
+          j.boolean("err", err).num("num", num).arr("vals", vals).arr2("frames", fr); observe_all(j); tr.emit(j); break; }
+        }
+        cur_call = nullptr;
+      }
+    }
+    for (int k = 1; k <= K; ++k) multi.set_proj_data_sptr(shared_ptr<ProjData>(), k);
+    for (int k = 1; k <= K; ++k) { const std::string h = dir + "/m" + std::to_string(cfg_id) + "_f" + std::to_string(k); std::remove((h + ".hs").c_str()); std::remove((h + ".s").c_str()); }
+    tr.flush();
+  }
+  return 0;
+}
+
 int main(int argc, char** argv) {
   vh::install_terminate();
   for (int sg : { SIGSEGV, SIGBUS, SIGFPE, SIGILL, SIGABRT }) signal(sg, on_signal);
@@ -662,5 +978,6 @@ int main(int argc, char** argv) {
   const std::string mode = argv[1];
   if (mode == "rand" && argc >= 6) return run_rand(argv[2], atol(argv[3]), atol(argv[4]), argv[5]);
   if (mode == "exh" && argc >= 5) return run_exh(argv[2], atol(argv[3]), argv[4]);
+  if (mode == "multi" && argc >= 6) return run_multi(argv[2], atol(argv[3]), atol(argv[4]), argv[5]);
   return 2;
 }
